@@ -1768,6 +1768,13 @@ class KmipEngine(object):
                 new_attribute.tag
             )
 
+            if current_attribute is not None:
+                if current_attribute.tag != new_attribute.tag:
+                    raise exceptions.InvalidField(
+                        "The current attribute and the new attribute must "
+                        "be the same attribute."
+                    )
+
             if not self._attribute_policy.is_attribute_modifiable_by_client(
                 attribute_name
             ):
